@@ -85,12 +85,45 @@ structure Cls where
   autoDetect : Bool
   /-- own field definitions, in order -/
   fields : List Field
+  /-- a second direct base: a fresh plain class deriving from `object` without `__setattr__`, fields or
+      attrs data (`some true`: its body has `__slots__ = ()`, `some false`: it has a `__dict__`).  Whether it
+      comes before or after the chain parent in `__bases__` is harness-only: the MRO puts `object` last, so
+      `__setattr__`, `__attrs_own_setattr__` and `__attrs_attrs__` still resolve to the chain parent, and the
+      `__bases__` loops of `define.wrap` / `_create_slots_class` find nothing in the mixin's own `__dict__`. -/
+  mixin : Option Bool := none
   deriving DecidableEq, Repr, FromJson, ToJson, Inhabited
 
+/-- this class adds a `__dict__` to the instance layout -/
+def Cls.givesDict (c : Cls) : Bool := !c.slots || c.mixin == some false
+
 inductive Exc where
-  | user (tok : String)     -- the instrumented callback `tok` raised
-  | frozenAttribute | frozenInstance | attributeError | valueError | typeError | other
+  | user (tok : String)     -- the instrumented callback `tok` raised a UserError
+  | frozenAttribute | frozenInstance | attributeError | valueError | typeError
+  | keyError | lookupError | stopIteration | baseException | other
   deriving DecidableEq, Repr, FromJson, ToJson, Inhabited
+
+/-- the type of the exception the faulty callback raises (`none` = the plain UserError) -/
+inductive FaultKind where
+  | user | keyError | lookupError | attributeError | typeError | valueError | stopIteration | baseException
+  deriving DecidableEq, Repr, FromJson, ToJson, Inhabited
+
+/-- the exception raised by callback `t` under fault kind `k` -/
+def faultExc : Option FaultKind → String → Exc
+  | none, t => .user t
+  | some .user, t => .user t
+  | some .keyError, _ => .keyError
+  | some .lookupError, _ => .lookupError
+  | some .attributeError, _ => .attributeError
+  | some .typeError, _ => .typeError
+  | some .valueError, _ => .valueError
+  | some .stopIteration, _ => .stopIteration
+  | some .baseException, _ => .baseException
+
+/-- nothing between the callback and the caller of `setattr` looks at the exception: whatever type the
+    faulty callback raises is what propagates (the machine below tracks it as `user tok`) -/
+def retype (k : Option FaultKind) : Exc → Exc
+  | .user t => faultExc k t
+  | e => e
 
 /-! ## Class definition -/
 
@@ -229,7 +262,7 @@ def rejects (base : CState) (c : Cls) (eff0 : Eff) : Bool :=
 def finish (base : CState) (c : Cls) (eff0 : Eff) : CState :=
   let attrs := resolveAttrs base.attrs c.fields
   let sa := saOf base c eff0
-  let hasDict := base.hasDict || !c.slots
+  let hasDict := base.hasDict || c.givesDict
   let slotNames := if c.slots then base.slotNames ++ c.fields.map (·.name) else base.slotNames
   -- what the class body / the base provide before attrs touches `__setattr__`
   let inherited : Impl := if c.ownSetattr then .user else base.impl
@@ -257,7 +290,7 @@ def defineAttrs (base : CState) (c : Cls) : Except Exc CState :=
 
 /-- a class statement without a decorator: everything is inherited -/
 def definePlain (base : CState) (c : Cls) : CState :=
-  { base with flagOwn := none, hasDict := base.hasDict || !c.slots, wroteHooks := false,
+  { base with flagOwn := none, hasDict := base.hasDict || c.givesDict, wroteHooks := false,
               impl := if c.ownSetattr then .user else base.impl }
 
 def defineCls (base : CState) (c : Cls) : Except Exc CState :=
@@ -281,8 +314,9 @@ def Field.toInit (f : Field) : Init.Attr :=
   { name := f.tag, alias := f.name, dflt := .none, init := true, kwOnly := false, conv := f.conv,
     validators := f.validators, onSet := .unset, isSlot := false, type := none, convType := none }
 
+/-- identities ≥ 900 are hooks that return `None` -/
 def hookVal (i : Nat) (f : Field) (v : Val) : Val :=
-  "h" ++ toString i ++ "." ++ f.tag ++ "(" ++ v ++ ")"
+  if i ≥ 900 then "None" else "h" ++ toString i ++ "." ++ f.tag ++ "(" ++ v ++ ")"
 
 def hookEvent (i : Nat) (f : Field) (v : Val) : Event :=
   { id := { kind := "hook", field := f.tag, idx := i }, args := ["self", "attr." ++ f.tag, v] }
@@ -401,6 +435,8 @@ structure Case where
   history : List Assign
   /-- (assignment index, callback position within that assignment) that raises -/
   fault : Option (Nat × Nat)
+  /-- the type of exception that callback raises -/
+  faultKind : Option FaultKind := none
   deriving DecidableEq, Repr, FromJson, ToJson, Inhabited
 
 structure StepObs where
@@ -461,20 +497,20 @@ def faultAt (fault : Option (Nat × Nat)) (i : Nat) : Option Nat :=
   | some (s, p) => if s = i then some p else none
   | none => none
 
-def runHistory (rt : CState) (rv : Bool) (fault : Option (Nat × Nat)) (ps : List String) :
+def runHistory (rt : CState) (rv : Bool) (fault : Option (Nat × Nat)) (k : Option FaultKind) (ps : List String) :
     Nat → Store → List Assign → List StepObs
   | _, _, [] => []
   | i, st, a :: rest =>
     let r := assign rt rv (faultAt fault i) st a.name a.value
-    { exc := r.2.exc, trace := r.2.trace, values := snapshot ps r.1,
+    { exc := r.2.exc.map (retype k), trace := r.2.trace, values := snapshot ps r.1,
       ctor := if r.2.exc.isNone then ctorVal rt rv a else none }
-      :: runHistory rt rv fault ps (i + 1) r.1 rest
+      :: runHistory rt rv fault k ps (i + 1) r.1 rest
 
 def model (c : Case) : Obs :=
   match defineChain c.classes with
   | .error e => { defErr := some e, steps := [] }
   | .ok rt =>
     let st0 := if c.preset then presetStore rt else []
-    { defErr := none, steps := runHistory rt c.runValidators c.fault (probes rt c.history) 0 st0 c.history }
+    { defErr := none, steps := runHistory rt c.runValidators c.fault c.faultKind (probes rt c.history) 0 st0 c.history }
 
 end Attrs.C06
